@@ -9,7 +9,7 @@ def wellformed(r):
         if isinstance(x, list):
             return all(ok(y) for y in x)
         if isinstance(x, str):
-            return x in ('same', 'Set', 'TreeSet', 'Bucket', 'BTree')
+            return x in ('same', 'Set', 'TreeSet', 'Bucket', 'BTree', 'bool')
         return isinstance(x, int) and not isinstance(x, bool)
     return ok(r['got'])
 
